@@ -203,7 +203,7 @@ func (a *Address) Decode(lemoAddress string) error {
 	length := len(fullPayload)
 	if length == 0 {
 		// 0x0000000000000000000000000000000000000000
-		a.SetBytes(nil)
+		*a = Address{}
 	} else {
 		// get check bit
 		checkSum := fullPayload[length-1]
@@ -215,7 +215,7 @@ func (a *Address) Decode(lemoAddress string) error {
 		if checkSum != trueCheck {
 			return ErrInvalidAddressChecksum
 		}
-		a.SetBytes(bytesAddress)
+		*a = BytesToAddress(bytesAddress)
 	}
 	return nil
 }
